@@ -87,6 +87,15 @@ class BadArg:
         raise ValueError("BadArg cannot be pickled")
 
 
+class BadArgBadRepr:
+    """cannot be pickled AND cannot be printed (a closed handle): nothing in the executor may need its repr"""
+    def __reduce__(self):
+        raise ValueError("BadArgBadRepr cannot be pickled")
+
+    def __repr__(self):
+        raise OSError(9, "Bad file descriptor")
+
+
 class HugeArg:
     """too large for send_bytes"""
     def __reduce__(self):
@@ -146,6 +155,8 @@ def submit_kind(ex, kind, tid):
         return ex.submit(t_kbint, tid)
     if kind == "badarg":
         return ex.submit(t_arg, tid, BadArg())
+    if kind == "badarg_badrepr":
+        return ex.submit(t_arg, tid, BadArgBadRepr())
     if kind == "hugearg":
         return ex.submit(t_arg, tid, HugeArg())
     if kind == "badresult":
@@ -192,6 +203,7 @@ EXPECT = {
     "sysexit": lambda tid: ("SystemExit", "_RemoteTraceback"),
     "kbint": lambda tid: ("KeyboardInterrupt", "_RemoteTraceback"),
     "badarg": lambda tid: ("PicklingError", "_RemoteTraceback"),
+    "badarg_badrepr": lambda tid: ("PicklingError", "_RemoteTraceback"),
     "hugearg": lambda tid: ("RuntimeError", "_RemoteTraceback"),
     "bigarg": lambda tid: ("RuntimeError", "_RemoteTraceback"),
     "badresult": lambda tid: ("ValueError", "_RemoteTraceback"),
